@@ -46,13 +46,14 @@ func TestVerifReplay(t *testing.T) {
 				}
 			}
 		}
-		fmt.Printf("VERIF-CASE %d %s native=%s predicted=%s msg=%q\n", i, status, end, c.End, msg)
+		fmt.Printf("VERIF-CASE %d %s native=%s predicted=%s msg=%q detail=%s\n", i, status, end, c.End, msg, verifDetail)
 	}
 }
 
 func verifRunCase(c *verifCase, fn func()) (end, msg string) {
 	verifCur = c
 	verifGot = nil
+	verifDetail = ""
 	verifChoice = 0
 	defer func() {
 		if r := recover(); r != nil {
